@@ -49,6 +49,17 @@ func c01Case(c *runner.Ctx) (docs []*model.MDoc, mode uint32, shape string) {
 			docs[i].Fields = append(docs[i].Fields, &model.MField{N: "manyloc", Terms: []*model.MTerm{mt, heavy}})
 		}
 		return docs, []uint32{1025, 1024, 3}[r.Intn(3)], "many-locations"
+	case c.Idx%400 == 10 || c.Idx%400 == 11: // field instances that report a length but carry no term, in some documents
+		sch := gen.GenSchema(r)
+		n := 2 + r.Intn(30)
+		docs := gen.GenBatch(r, sch, n, fmt.Sprintf("E%d", c.Idx), gen.DocOpts{Repeat: c.Idx%2 == 0})
+		for _, d := range docs {
+			if r.Intn(2) == 0 {
+				fs := sch.Fields[r.Intn(len(sch.Fields))]
+				d.Fields = append(d.Fields, &model.MField{N: fs.Name, DV: fs.DV, Len: 1 + r.Intn(9)})
+			}
+		}
+		return docs, gen.Mode(r, n), "length-without-terms"
 	case c.Idx%400 == 9: // field names of >= 128 bytes
 		sch := gen.GenSchema(r)
 		sch.LongNames()
